@@ -36,13 +36,224 @@ def check (P : Prog) (c : Cert) : Bool :=
 def LInv (c : Cert) (g : G) : Prop :=
   ∀ t n, g.pcs[t]? = some n → ∀ m ∈ held c n, g.holder m = some t
 
+theorem sub_iff (a b : List Nat) : sub a b = true ↔ ∀ x ∈ a, x ∈ b := by
+  simp [sub, List.all_eq_true]
+
+theorem isEmpty_held {c : Cert} {e : Node} (h : (held c e).isEmpty = true) : held c e = [] := by
+  simpa [List.isEmpty_iff] using h
+
+/-- a step that only moves thread `t` to a node with fewer claims. -/
+theorem move_only {c : Cert} {g g' : G} {t n n' : Nat} (hinv : LInv c g)
+    (hpc : g.pcs[t]? = some n) (hsub : ∀ x ∈ held c n', x ∈ held c n)
+    (hp : g'.pcs = g.pcs.set t n') (hh : g'.holder = g.holder) : LInv c g' := by
+  intro t' k hk x hx
+  rw [hh]
+  rw [hp, List.getElem?_set] at hk
+  split at hk
+  · next heq =>
+    subst heq
+    split at hk
+    · cases hk
+      exact hinv t n hpc x (hsub x hx)
+    · cases hk
+  · exact hinv t' k hk x hx
+
+/-- a new thread appears at a node without claims. -/
+theorem append_only {c : Cert} {g g' : G} {e : Nat} (hinv : LInv c g)
+    (he : held c e = []) (hp : g'.pcs = g.pcs ++ [e]) (hh : g'.holder = g.holder) : LInv c g' := by
+  intro t' k hk x hx
+  rw [hh]
+  rw [hp, List.getElem?_append] at hk
+  split at hk
+  · exact hinv t' k hk x hx
+  · have : k = e := by
+      cases hl : ([e] : List Nat)[t' - g.pcs.length]? with
+      | none => rw [hl] at hk; cases hk
+      | some v =>
+        rw [hl] at hk
+        cases hk
+        have := List.mem_of_getElem? hl
+        simpa using this
+    subst this
+    rw [he] at hx
+    cases hx
+
+theorem acquire {c : Cert} {g g' : G} {t n n' m : Nat} (hinv : LInv c g)
+    (hpc : g.pcs[t]? = some n) (hfree : g.holder m = none)
+    (hsub : ∀ x ∈ held c n', x = m ∨ x ∈ held c n)
+    (hp : g'.pcs = g.pcs.set t n') (hh : g'.holder = upd g.holder m (some t)) : LInv c g' := by
+  intro t' k hk x hx
+  rw [hh]
+  rw [hp, List.getElem?_set] at hk
+  split at hk
+  · next heq =>
+    subst heq
+    split at hk
+    · cases hk
+      unfold upd
+      split
+      · rfl
+      · next hne =>
+        rcases hsub x hx with h | h
+        · exact absurd h hne
+        · exact hinv t n hpc x h
+    · cases hk
+  · have := hinv t' k hk x hx
+    unfold upd
+    split
+    · next heq => subst heq; rw [hfree] at this; cases this
+    · exact this
+
+theorem release {c : Cert} {g g' : G} {t n n' m : Nat} (hinv : LInv c g)
+    (hpc : g.pcs[t]? = some n) (hm : m ∈ held c n)
+    (hsub : ∀ x ∈ held c n', x ∈ held c n ∧ x ≠ m)
+    (hp : g'.pcs = g.pcs.set t n') (hh : g'.holder = upd g.holder m none) : LInv c g' := by
+  have hmt := hinv t n hpc m hm
+  intro t' k hk x hx
+  rw [hh]
+  rw [hp, List.getElem?_set] at hk
+  split at hk
+  · next heq =>
+    subst heq
+    split at hk
+    · cases hk
+      have := hsub x hx
+      unfold upd
+      rw [if_neg this.2]
+      exact hinv t n hpc x this.1
+    · cases hk
+  · next hne =>
+    have := hinv t' k hk x hx
+    unfold upd
+    split
+    · next heq =>
+      subst heq
+      rw [hmt] at this
+      cases this
+      exact absurd rfl hne
+    · exact this
+
+theorem checkNode_of_check {P : Prog} {c : Cert} (h : check P c = true) {n : Nat}
+    (hn : n < P.code.length) : checkNode P c n = true := by
+  unfold check at h
+  simp only [Bool.and_eq_true, List.all_eq_true, List.mem_range] at h
+  exact h.1.1.1 n hn
+
+theorem at_oob {P : Prog} {n : Nat} (hn : ¬ n < P.code.length) : P.at n = .done false := by
+  unfold Prog.at
+  simp [List.getD, List.getElem?_eq_none (Nat.le_of_not_lt hn)]
+
+theorem tstep_pres {P : Prog} {c : Cert} {g g' : G} {t n : Nat} (hinv : LInv c g)
+    (hpc : g.pcs[t]? = some n) (hck : checkNode P c n = true)
+    (hs : TStep t (P.at n) g g') : LInv c g' := by
+  unfold checkNode at hck
+  generalize hi : P.at n = i at hs hck
+  cases hs with
+  | lockOk m ok err _ hfree _ =>
+    simp only [Bool.and_eq_true, sub_iff] at hck
+    refine acquire hinv hpc hfree (fun x hx => ?_) rfl rfl
+    simpa using hck.1.2 x hx
+  | lockErr m ok err =>
+    simp only [Bool.and_eq_true, sub_iff] at hck
+    exact move_only hinv hpc hck.2 rfl rfl
+  | forceLock m nx _ hfree =>
+    simp only [Bool.and_eq_true, sub_iff] at hck
+    refine acquire hinv hpc hfree (fun x hx => ?_) rfl rfl
+    simpa using hck.2 x hx
+  | tryYes m y no _ hfree =>
+    simp only [Bool.and_eq_true, sub_iff] at hck
+    refine acquire hinv hpc hfree (fun x hx => ?_) rfl rfl
+    simpa using hck.1.2 x hx
+  | tryNo m y no _ =>
+    simp only [Bool.and_eq_true, sub_iff] at hck
+    exact move_only hinv hpc hck.2 rfl rfl
+  | unlock m nx =>
+    simp only [Bool.and_eq_true, sub_iff] at hck
+    obtain ⟨⟨h1, h2⟩, h3⟩ := hck
+    have h1' : m ∈ held c n := by simpa using h1
+    refine release hinv hpc h1' (fun x hx => ⟨List.mem_of_mem_erase (h2 x hx), ?_⟩) rfl rfl
+    intro hxm
+    subst hxm
+    simp [hx] at h3
+  | spawn e nx =>
+    simp only [Bool.and_eq_true, sub_iff] at hck
+    have h1 : LInv c (g.move t nx) := move_only hinv hpc hck.2 rfl rfl
+    exact append_only h1 (isEmpty_held hck.1) rfl rfl
+  | testT f a b _ =>
+    simp only [Instr.succs, List.all_cons, List.all_nil, Bool.and_eq_true, sub_iff] at hck
+    exact move_only hinv hpc hck.1 rfl rfl
+  | testF f a b _ =>
+    simp only [Instr.succs, List.all_cons, List.all_nil, Bool.and_eq_true, sub_iff] at hck
+    exact move_only hinv hpc hck.2.1 rfl rfl
+  | set f v nx =>
+    simp only [Instr.succs, List.all_cons, List.all_nil, Bool.and_eq_true, sub_iff] at hck
+    exact move_only hinv hpc hck.1 rfl rfl
+  | casWon f w l _ =>
+    simp only [Instr.succs, List.all_cons, List.all_nil, Bool.and_eq_true, sub_iff] at hck
+    exact move_only hinv hpc hck.1 rfl rfl
+  | casLost f w l _ =>
+    simp only [Instr.succs, List.all_cons, List.all_nil, Bool.and_eq_true, sub_iff] at hck
+    exact move_only hinv hpc hck.2.1 rfl rfl
+  | wrOk k ok err _ =>
+    simp only [Instr.succs, List.all_cons, List.all_nil, Bool.and_eq_true, sub_iff] at hck
+    exact move_only hinv hpc hck.1 rfl rfl
+  | wrErr k ok err =>
+    simp only [Instr.succs, List.all_cons, List.all_nil, Bool.and_eq_true, sub_iff] at hck
+    exact move_only hinv hpc hck.2.1 rfl rfl
+  | armOk s own ok cl =>
+    simp only [Instr.succs, List.all_cons, List.all_nil, Bool.and_eq_true, sub_iff] at hck
+    exact move_only hinv hpc hck.1 rfl rfl
+  | armClosed s own ok cl _ =>
+    simp only [Instr.succs, List.all_cons, List.all_nil, Bool.and_eq_true, sub_iff] at hck
+    exact move_only hinv hpc hck.2.1 rfl rfl
+  | ioOk ok err =>
+    simp only [Instr.succs, List.all_cons, List.all_nil, Bool.and_eq_true, sub_iff] at hck
+    exact move_only hinv hpc hck.1 rfl rfl
+  | ioErr ok err =>
+    simp only [Instr.succs, List.all_cons, List.all_nil, Bool.and_eq_true, sub_iff] at hck
+    exact move_only hinv hpc hck.2.1 rfl rfl
+  | signal ch nx =>
+    simp only [Instr.succs, List.all_cons, List.all_nil, Bool.and_eq_true, sub_iff] at hck
+    exact move_only hinv hpc hck.1 rfl rfl
+  | awaitOk ch ok to _ =>
+    simp only [Instr.succs, List.all_cons, List.all_nil, Bool.and_eq_true, sub_iff] at hck
+    exact move_only hinv hpc hck.1 rfl rfl
+  | awaitTimeout ch ok to =>
+    simp only [Instr.succs, List.all_cons, List.all_nil, Bool.and_eq_true, sub_iff] at hck
+    exact move_only hinv hpc hck.2.1 rfl rfl
+  | branch ss n' _ hmem =>
+    simp only [Instr.succs, List.all_eq_true, sub_iff] at hck
+    exact move_only hinv hpc (hck n' hmem) rfl rfl
+
 theorem sound (P : Prog) (c : Cert) (h : check P c = true) : ∀ g, Reach P g → LInv c g := by
-  sorry
+  have hchk := h
+  unfold check at hchk
+  simp only [Bool.and_eq_true, List.all_eq_true] at hchk
+  obtain ⟨⟨⟨_, hent⟩, hboot⟩, _⟩ := hchk
+  intro g hr
+  induction hr with
+  | init =>
+    intro t n hk x hx
+    have hmem : n ∈ P.boot := List.mem_of_getElem? hk
+    rw [isEmpty_held (hboot n hmem)] at hx
+    cases hx
+  | step g g' _ hs ih =>
+    cases hs with
+    | start e _ he => exact append_only ih (isEmpty_held (hent e he)) rfl rfl
+    | thread t n _ _ hpc hts =>
+      by_cases hn : n < P.code.length
+      · exact tstep_pres ih hpc (checkNode_of_check h hn) hts
+      · rw [at_oob hn] at hts
+        cases hts
 
 /-- mutual exclusion: two threads at nodes that both claim lock `m` are the same thread. -/
 theorem exclusive (P : Prog) (c : Cert) (h : check P c = true) (g : G) (hr : Reach P g)
     (t1 t2 n1 n2 m : Nat) (h1 : g.pcs[t1]? = some n1) (h2 : g.pcs[t2]? = some n2)
     (m1 : m ∈ held c n1) (m2 : m ∈ held c n2) : t1 = t2 := by
-  sorry
+  have hinv := sound P c h g hr
+  have a := hinv t1 n1 h1 m m1
+  have b := hinv t2 n2 h2 m m2
+  rw [a] at b
+  exact Option.some.inj b
 
 end WS.CIR.Lockset
